@@ -23,7 +23,7 @@ NoGrid == [t |-> "none"]
 Empty == [z \in {} |-> 0]
 
 \* named conjunct: in diagnosis mode a failure is printed and the trace goes on
-Chk(name, line, val) == IF Diag THEN (IF val THEN TRUE ELSE PrintT(<<"FAILED", name, "line", line>>)) ELSE val
+Chk(name, line, val) == IF Diag THEN (IF val THEN TRUE ELSE PrintT(<<"FAILED", name, "line", line>>)) ELSE (val = TRUE)   \* (= TRUE: evaluated as a state-level expression, never expanded as an action)
 
 FInit == grid = NoGrid /\ graphs = Empty /\ memo = Empty
 
